@@ -1013,6 +1013,9 @@ class AnsiString:
             value = AnsiString(value)
 
         if isinstance(value, AnsiString):
+            if value is self:
+                # Appending to itself - work from a snapshot since my own settings change below
+                value = value.copy()
             incoming_str = value._s
             incoming_fmts = value._fmts
         else:
